@@ -3,6 +3,8 @@ package checks
 import (
 	"fmt"
 
+	"github.com/gregoryv/mq"
+
 	"verif/mc/core"
 	"verif/mc/gen"
 	"verif/mc/spec"
@@ -213,6 +215,50 @@ func enumPackets(x *core.Ctx, k int, types []byte, fn func(c *pcase)) {
 	enumDense(x, types, false, fn)
 }
 
+type numSite struct {
+	name string
+	set  func(p *spec.Packet, v uint32)
+}
+
+// numericSites lists the numeric fields present in p (zero values that are
+// protocol errors on the wire are mapped to 1 by the setter closures).
+func numericSites(p *spec.Packet) []numSite {
+	var out []numSite
+	if p.Type == 1 {
+		out = append(out, numSite{"keepalive", func(p *spec.Packet, v uint32) { p.KeepAlive = uint16(v) }})
+	}
+	switch p.Type {
+	case 3, 4, 5, 6, 7, 8, 9, 10, 11:
+		out = append(out, numSite{"packetid", func(p *spec.Packet, v uint32) {
+			if v == 0 {
+				v = 1
+			}
+			p.PacketID = uint16(v)
+		}})
+	}
+	add := func(prefix string, get func(p *spec.Packet) []spec.Prop) {
+		for i, pr := range get(p) {
+			i := i
+			kind, name, _ := spec.PropInfo(pr.ID)
+			if kind != spec.KindU16 && kind != spec.KindU32 && kind != spec.KindVarint {
+				continue
+			}
+			nz := spec.PropNonZero(pr.ID)
+			out = append(out, numSite{prefix + name, func(p *spec.Packet, v uint32) {
+				if v == 0 && nz {
+					v = 1
+				}
+				get(p)[i].N = v
+			}})
+		}
+	}
+	add("", func(p *spec.Packet) []spec.Prop { return p.Props })
+	if p.Will != nil {
+		add("will.", func(p *spec.Packet) []spec.Prop { return p.Will.Props })
+	}
+	return out
+}
+
 // ---- dense strata (gen/dense.go) -------------------------------------------
 
 // denseBase: 0 = rich packet (every optional field present, failing reason
@@ -239,6 +285,29 @@ func densePacket(t byte, kind string, a []int) *spec.Packet {
 			return nil
 		}
 		return gen.WithSiteLen(p, a[3], a[4])
+	case "int": // numeric site index, value
+		p := denseBase(t, 0)
+		sites := numericSites(p)
+		if a[0] >= len(sites) {
+			return nil
+		}
+		sites[a[0]].set(p, uint32(a[1]))
+		return p
+	case "selfname": // reason code; the reason string is the name the library prints for it
+		p := denseBase(t, 0)
+		p.Reason = byte(a[0])
+		name := mq.ReasonCode(a[0]).String()
+		found := false
+		for i := range p.Props {
+			if p.Props[i].ID == 0x1f {
+				p.Props[i].B = []byte(name)
+				found = true
+			}
+		}
+		if !found {
+			return nil
+		}
+		return p
 	case "listlen": // list kind (0 user properties, 1 subscription identifiers, 2 filters, 3 reason codes), count
 		p := minimalPacket(t)
 		n := a[1]
@@ -320,6 +389,11 @@ func describeDense(t byte, kind string, a []int) string {
 	case "pair":
 		ss := gen.Sites(denseBase(t, a[0]))
 		return fmt.Sprintf("%s %s with %s of %d bytes and %s of %d bytes", name, bases[a[0]], ss[a[1]].Name, a[2], ss[a[3]].Name, a[4])
+	case "int":
+		ns := numericSites(denseBase(t, 0))
+		return fmt.Sprintf("%s rich with %s = %d", name, ns[a[0]].name, a[1])
+	case "selfname":
+		return fmt.Sprintf("%s rich with reason code %#02x and the reason string %q (the library's own name for the code)", name, a[0], mq.ReasonCode(a[0]).String())
 	case "listlen":
 		return fmt.Sprintf("%s minimal with %d %s", name, a[1], []string{"user properties", "subscription identifiers", "filters", "reason codes"}[a[0]])
 	case "content":
@@ -385,6 +459,24 @@ func enumDense(x *core.Ctx, types []byte, odd bool, fn func(c *pcase)) {
 							}
 						}
 					}
+				}
+			}
+		}
+		// every numeric field at every value 0..300 (thresholds that relate a
+		// numeric field to a size or a count sit among ordinary values)
+		for si := range numericSites(denseBase(t, 0)) {
+			for v := 0; v <= 300; v++ {
+				if !emit("S5.dense.int", t, "int", si, v) {
+					return
+				}
+			}
+		}
+		// the reason string equal to the name the library itself prints for
+		// the reason code, for all 256 codes
+		if t == 2 || (t >= 4 && t <= 7) || t == 14 || t == 15 {
+			for rc := 0; rc < 256; rc++ {
+				if !emit("S5.dense.selfname", t, "selfname", rc) {
+					return
 				}
 			}
 		}
